@@ -431,6 +431,9 @@ def run(ctx):
         if ctx.nshards > 1 and j % ctx.nshards != ctx.shard % ctx.nshards:
             continue
         run_large(ctx, nr, nc, variant)
+    # ------------------------------------------- very many inlets (closed form) ----
+    if ctx.shard == 3 % ctx.nshards:
+        run_many_inlets(ctx)
     # ------------------------------------------------------------ random part ----
     rng = ctx.rng(2)
     nrand = 12 if ctx.tier == "quick" else 600
@@ -475,6 +478,22 @@ def run(ctx):
                 check_area(ctx, cat, model, o, [], dict(case, outlet=o, inlets=[],
                                                         nval=int(nval)),
                            nval=max(1, int(nval)), cyc=False)
+            # ... the same with inlets and every small buffer: whether the call is
+            # answered or refused, the catchment object is as good as new afterwards
+            full = sorted(model.area(o))
+            if len(full) >= 3:
+                inl = [int(v) for v in rng.choice([c for c in full if c != o],
+                                                  size=min(2, len(full) - 1),
+                                                  replace=False)]
+                for nval in range(1, 11):
+                    ctx.tag("tight-buffer-with-inlets")
+                    check_area(ctx, cat, model, o, inl,
+                               dict(case, outlet=o, inlets=inl, nval=nval), nval=nval,
+                               cyc=False)
+                    check_relations(ctx, cat, model, dict(case, after_tight_buffer=nval))
+                    check_area(ctx, cat, model, o, [],
+                               dict(case, outlet=o, inlets=[], after_tight_buffer=nval),
+                               cyc=False)
 
 
 def run_large(ctx, nr, nc, variant):
@@ -585,6 +604,59 @@ def run_large(ctx, nr, nc, variant):
                        "last_dist": float(dist[-1]) if len(dist) else None,
                        "expected_last": float(expd[-1])})
     ctx.nontrivial("large", nr, nc, variant)
+
+
+def run_many_inlets(ctx):
+    """a 40 x 40 grid draining south, row by row, to the bottom-left corner; a whole
+    region is excluded by listing its cells as inlets (400, 1000, 1040, 1500 of them):
+    the area is everything that does not drain through a listed cell"""
+    g = mods()
+    nr = nc = 40
+    codes = np.full((nr, nc), 4, dtype=np.int64)       # south
+    codes[nr - 1, :] = 16                               # bottom row flows west
+    codes[nr - 1, 0] = 0
+    outlet = (nr - 1) * nc
+    for ninl in (400, 1000, 1001, 1040, 1500):
+        fd = g.Grid("fd", nc, nr, dtype=np.int64)
+        fd.data = codes
+        cat = g.Catchment("c", fd)
+        # inlets: cells of the rows just above the bottom row, listed column by column
+        # from the right: each blocks its whole column above it
+        rows_needed = -(-ninl // nc)
+        inl = []
+        for k in range(ninl):
+            col = nc - 1 - (k % nc)
+            row = nr - 2 - (k // nc)
+            inl.append(row * nc + col)
+        # listed from the top down: the inlets that matter (the row next to the
+        # bottom one) come last in the list
+        inl = inl[::-1]
+        if ninl % 2:
+            inl = inl[1:] + inl[:1]
+        blocked_cols = set(nc - 1 - (k % nc) for k in range(min(ninl, nc)))
+        exp = set(range((nr - 1) * nc, nr * nc))        # the bottom row always drains
+        for col in range(nc):
+            if col in blocked_cols:
+                continue
+            exp |= set(r * nc + col for r in range(nr - 1))
+        case = {"kind": "manyinlets", "n": ninl}
+        ctx.evaluated()
+        ctx.tag("many-inlets")
+        ctx.api("delineate_area")
+        try:
+            cat.delineate_area(outlet, inl, nval=nr * nc + 5)
+            area = [int(v) for v in cat.idxcells_area]
+        except Exception as e:
+            ctx.check("area.many-inlets", False, "delineate_area|raises|many-inlets", case,
+                      {"exc": repr(e)[:200]})
+            continue
+        # (the inlets of the first row listed block every column when ninl >= nc)
+        ctx.check("area.many-inlets", set(area) == exp and len(area) == len(exp),
+                  "delineate_area|area|many-inlets", case,
+                  lambda: {"listed": len(area), "expected": len(exp),
+                           "extra": sorted(set(area) - exp)[:8],
+                           "missing": sorted(exp - set(area))[:8]})
+        ctx.nontrivial("manyinlets", ninl)
 
 
 def gen_snake(nr, nc, flip=False):
